@@ -208,7 +208,7 @@ func policyFor(k, caseIdx int) pdfsyn.Policy {
 
 const nPolicies = 12
 
-func recordFeatures(c *fw.Ctx, w *pdfsyn.Writer, p pdfsyn.Policy) {
+func recordFeatures(c *acc, w *pdfsyn.Writer, p pdfsyn.Policy) {
 	c.Seen("policy_ws", pdfsyn.WSNames[p.WS])
 	c.Seen("policy_eol", pdfsyn.EOLNames[p.EOL])
 	c.Seen("policy_string", pdfsyn.StrNames[p.Str])
@@ -220,7 +220,7 @@ func recordFeatures(c *fw.Ctx, w *pdfsyn.Writer, p pdfsyn.Policy) {
 	}
 }
 
-func seenKinds(c *fw.Ctx, o Obj) {
+func seenKinds(c *acc, o Obj) {
 	c.Seen("object_kind", o.K.String())
 	for _, e := range o.A {
 		seenKinds(c, e)
@@ -239,6 +239,35 @@ func countNodes(o Obj) int64 {
 		n += countNodes(e.Val)
 	}
 	return n
+}
+
+// acc collects evidence of one case locally and hands it to the context once
+// (the context's tables are behind one mutex; per-token updates would
+// serialise the workers).
+type acc struct {
+	n map[string]int64
+	s map[[2]string]struct{}
+}
+
+func newAcc() *acc { return &acc{n: map[string]int64{}, s: map[[2]string]struct{}{}} }
+
+func (a *acc) Count(k string, n int64) {
+	if a != nil {
+		a.n[k] += n
+	}
+}
+func (a *acc) Seen(t, v string) {
+	if a != nil {
+		a.s[[2]string{t, v}] = struct{}{}
+	}
+}
+func (a *acc) flush(c *fw.Ctx) {
+	for k, n := range a.n {
+		c.Count(k, n)
+	}
+	for k := range a.s {
+		c.Seen(k[0], k[1])
+	}
 }
 
 // failure is one failed oracle (not yet reported).
@@ -368,7 +397,7 @@ func spellCore(cc coreCase, p pdfsyn.Policy, r *rand.Rand) (*pdfsyn.Writer, []by
 }
 
 // evalCore parses one spelling with core.Parser and compares.
-func evalCore(c *fw.Ctx, id string, cc coreCase, p pdfsyn.Policy, data []byte, detail map[string]any, count bool) (f *failure) {
+func evalCore(c *fw.Ctx, id string, cc coreCase, p pdfsyn.Policy, data []byte, detail map[string]any, a *acc) (f *failure) {
 	class := "core-" + cc.form + "/" + pdfsyn.WSNames[p.WS]
 	c.Guard(class, id, detail, func() {
 		ps := core.NewParser(bytes.NewReader(data))
@@ -384,8 +413,8 @@ func evalCore(c *fw.Ctx, id string, cc coreCase, p pdfsyn.Policy, data []byte, d
 					f = &failure{class + "/mismatch", fmt.Sprintf("core.ParseObject: %s (%s): %s", d, p, fw.OneLine(string(data), 160))}
 					return
 				}
-				if count {
-					c.Count("core_nodes_compared", countNodes(t))
+				{
+					a.Count("core_nodes_compared", countNodes(t))
 				}
 			}
 			// everything must have been consumed: the next object is EOF
@@ -407,8 +436,8 @@ func evalCore(c *fw.Ctx, id string, cc coreCase, p pdfsyn.Policy, data []byte, d
 				f = &failure{class + "/mismatch", fmt.Sprintf("core.ParseIndirectObject: %s (%s): %s", d, p, fw.OneLine(string(data), 160))}
 				return
 			}
-			if count {
-				c.Count("core_nodes_compared", countNodes(cc.trees[0]))
+			{
+				a.Count("core_nodes_compared", countNodes(cc.trees[0]))
 			}
 		}
 	})
@@ -422,33 +451,35 @@ func coreDetail(cc coreCase, p pdfsyn.Policy, desc string, data []byte) map[stri
 func runCoreCase(c *fw.Ctx, id string, i int) {
 	cc := genCoreCase(c.Rand("core", i, "tree"), i)
 	desc := cc.describe()
+	ev := newAcc()
+	defer ev.flush(c)
 	maxDepth, esc := 0, false
 	for _, t := range cc.trees {
 		if d := t.Depth(); d > maxDepth {
 			maxDepth = d
 		}
 		esc = esc || t.NeedsEscape()
-		seenKinds(c, t)
+		seenKinds(ev, t)
 	}
 	nontriv := maxDepth >= 2 || esc
-	c.Seen("core_form", cc.form)
-	c.Seen("tree_depth", fmt.Sprint(maxDepth))
+	ev.Seen("core_form", cc.form)
+	ev.Seen("tree_depth", fmt.Sprint(maxDepth))
 	for k := 0; k < nPolicies; k++ {
 		p := policyFor(k, i)
 		w, data := spellCore(cc, p, c.Rand("core", i, "spell", k))
 		c.Case(desc+"|"+p.String(), nontriv)
-		recordFeatures(c, w, p)
+		recordFeatures(ev, w, p)
 		if k == 0 {
 			c.Sample(map[string]any{"id": id, "form": cc.form, "policy": p.String(), "bytes": string(short(data))})
 		}
 		detail := coreDetail(cc, p, desc, data)
-		f := evalCore(c, id, cc, p, data, detail, true)
+		f := evalCore(c, id, cc, p, data, detail, ev)
 		report(c, id, f, detail, w.Features["raw-eol-cr-in-string"] > 0, func() (*failure, map[string]any) {
 			np := p
 			np.NoRawEOL = true
 			_, nd := spellCore(cc, np, c.Rand("core", i, "spell", k))
 			ndet := coreDetail(cc, np, desc, nd)
-			return evalCore(c, id, cc, np, nd, ndet, false), ndet
+			return evalCore(c, id, cc, np, nd, ndet, nil), ndet
 		})
 	}
 }
@@ -462,7 +493,7 @@ func spellProgram(prog []pdfsyn.Op, p pdfsyn.Policy, r *rand.Rand) (*pdfsyn.Writ
 	return w, spans, append([]byte{}, w.Bytes()...)
 }
 
-func evalProgram(c *fw.Ctx, id string, prog []pdfsyn.Op, p pdfsyn.Policy, spans [][2]int, data []byte, detail map[string]any, count bool) (f *failure) {
+func evalProgram(c *fw.Ctx, id string, prog []pdfsyn.Op, p pdfsyn.Policy, spans [][2]int, data []byte, detail map[string]any, ev *acc) (f *failure) {
 	class := "cs-program/" + pdfsyn.WSNames[p.WS]
 	c.Guard(class, id, detail, func() {
 		ops, err := contentstream.NewParser(data).Parse()
@@ -477,6 +508,9 @@ func evalProgram(c *fw.Ctx, id string, prog []pdfsyn.Op, p pdfsyn.Policy, spans 
 					n, ops[n].Operator, len(ops[n].Operands), prog[n].Operator, len(prog[n].Operands), p, fw.OneLine(string(data), 160))}
 				return
 			}
+			if prog[n].Operator == "EI" {
+				continue // what a parser attaches to EI (e.g. the image data) is not specified
+			}
 			if len(ops[n].Operands) != len(prog[n].Operands) {
 				f = &failure{class + "/grouping", fmt.Sprintf("contentstream.Parse: operation %d (%s) has %d operands %v, want %d (%s): %s",
 					n, prog[n].Operator, len(ops[n].Operands), ops[n].Operands, len(prog[n].Operands), p, fw.OneLine(string(data), 160))}
@@ -487,8 +521,8 @@ func evalProgram(c *fw.Ctx, id string, prog []pdfsyn.Op, p pdfsyn.Policy, spans 
 					f = &failure{class + "/operand", fmt.Sprintf("contentstream.Parse: %s (%s): %s", d, p, fw.OneLine(string(data), 160))}
 					return
 				}
-				if count {
-					c.Count("cs_operand_nodes_compared", countNodes(prog[n].Operands[a]))
+				{
+					ev.Count("cs_operand_nodes_compared", countNodes(prog[n].Operands[a]))
 				}
 			}
 		}
@@ -496,8 +530,8 @@ func evalProgram(c *fw.Ctx, id string, prog []pdfsyn.Op, p pdfsyn.Policy, spans 
 			f = &failure{class + "/grouping", fmt.Sprintf("contentstream.Parse: %d operations, want %d (%s): %s", len(ops), len(prog), p, fw.OneLine(string(data), 160))}
 			return
 		}
-		if count {
-			c.Count("cs_operations_compared", int64(len(prog)))
+		{
+			ev.Count("cs_operations_compared", int64(len(prog)))
 		}
 		// differential: the operand bytes of each operation, read by core.Parser
 		for n, sp := range spans {
@@ -518,8 +552,8 @@ func evalProgram(c *fw.Ctx, id string, prog []pdfsyn.Op, p pdfsyn.Policy, spans 
 				f = &failure{"differential/" + pdfsyn.WSNames[p.WS], fmt.Sprintf("parsers disagree on operand bytes %q: %s", fw.OneLine(string(data[sp[0]:sp[1]]), 120), d)}
 				return
 			}
-			if count {
-				c.Count("differential_operand_lists_compared", 1)
+			{
+				ev.Count("differential_operand_lists_compared", 1)
 			}
 		}
 	})
@@ -535,10 +569,12 @@ func runProgramCase(c *fw.Ctx, id string, i int) {
 	prog := genProgram(r, maxOps)
 	desc := describeProgram(prog)
 	nontriv := len(prog) >= 3
+	ev := newAcc()
+	defer ev.flush(c)
 	for _, op := range prog {
-		c.Seen("operator", op.Operator)
+		ev.Seen("operator", op.Operator)
 		for _, a := range op.Operands {
-			seenKinds(c, a)
+			seenKinds(ev, a)
 		}
 	}
 	mkDetail := func(p pdfsyn.Policy, data []byte) map[string]any {
@@ -548,18 +584,18 @@ func runProgramCase(c *fw.Ctx, id string, i int) {
 		p := policyFor(k, i)
 		w, spans, data := spellProgram(prog, p, c.Rand("prog", i, "spell", k))
 		c.Case(desc+"|"+p.String(), nontriv)
-		recordFeatures(c, w, p)
+		recordFeatures(ev, w, p)
 		if k == 3 {
 			c.Sample(map[string]any{"id": id, "operations": len(prog), "policy": p.String(), "bytes": string(short(data))})
 		}
 		detail := mkDetail(p, data)
-		f := evalProgram(c, id, prog, p, spans, data, detail, true)
+		f := evalProgram(c, id, prog, p, spans, data, detail, ev)
 		report(c, id, f, detail, w.Features["raw-eol-cr-in-string"] > 0, func() (*failure, map[string]any) {
 			np := p
 			np.NoRawEOL = true
 			_, nsp, nd := spellProgram(prog, np, c.Rand("prog", i, "spell", k))
 			ndet := mkDetail(np, nd)
-			return evalProgram(c, id, prog, np, nsp, nd, ndet, false), ndet
+			return evalProgram(c, id, prog, np, nsp, nd, ndet, nil), ndet
 		})
 	}
 }
@@ -580,6 +616,7 @@ var csWitnesses = []struct {
 	{"null-dictend", "/P<</K null/L false>>DP", []pdfsyn.Op{{Operator: "DP", Operands: []Obj{name("P"), {K: pdfsyn.KDict, D: []pdfsyn.Entry{{Key: []byte("K"), Val: Obj{K: pdfsyn.KNull}}, {Key: []byte("L"), Val: Obj{K: pdfsyn.KBool}}}}}}}},
 	{"bare-bool", "/N true x", []pdfsyn.Op{{Operator: "x", Operands: []Obj{name("N"), {K: pdfsyn.KBool, B: true}}}}},
 	{"odd-hex", "<901fa>Tj ET", []pdfsyn.Op{{Operator: "Tj", Operands: []Obj{str("\x90\x1f\xa0")}}, {Operator: "ET"}}},
+	{"inline-image", "q BI/W 2/H 1/BPC 8/CS/G ID \x00\xff\nEI Q", []pdfsyn.Op{{Operator: "q"}, {Operator: "BI"}, {Operator: "ID", Operands: []Obj{name("W"), num(2), name("H"), num(1), name("BPC"), num(8), name("CS"), name("G")}}, {Operator: "EI"}, {Operator: "Q"}}},
 	{"d0-d1", "1 0 d0 1 0 0 0 1 1 d1", []pdfsyn.Op{{Operator: "d0", Operands: []Obj{num(1), num(0)}}, {Operator: "d1", Operands: []Obj{num(1), num(0), num(0), num(0), num(1), num(1)}}}},
 }
 
@@ -614,9 +651,12 @@ func runWitnesses(c *fw.Ctx) {
 			ok := len(ops) == len(wt.want)
 			var why string
 			for n := 0; ok && n < len(ops); n++ {
-				if ops[n].Operator != wt.want[n].Operator || len(ops[n].Operands) != len(wt.want[n].Operands) {
+				if ops[n].Operator != wt.want[n].Operator || (len(ops[n].Operands) != len(wt.want[n].Operands) && wt.want[n].Operator != "EI") {
 					ok = false
 					break
+				}
+				if wt.want[n].Operator == "EI" {
+					continue
 				}
 				for a := range ops[n].Operands {
 					if why = diff(wt.want[n].Operands[a], ops[n].Operands[a], fmt.Sprintf("op%d.operand%d", n, a)); why != "" {
@@ -660,6 +700,38 @@ func runWitnesses(c *fw.Ctx) {
 	}
 }
 
+// runFindingWitnesses: one fixed case per listed finding, run on every
+// invocation; reported under the finding id while it is open, as a plain
+// violation otherwise.
+func runFindingWitnesses(c *fw.Ctx) {
+	if c.Want("w:finding:raw-eol-core") {
+		in := "(a\r\nb\rc\nd)"
+		c.Case("witness|"+in, true)
+		detail := map[string]any{"input": in}
+		c.Guard("witness/raw-eol", "w:finding:raw-eol-core", detail, func() {
+			got, err := core.NewParser(strings.NewReader(in)).ParseObject()
+			if d := diff(str("a\nb\nc\nd"), got, "obj"); err != nil || d != "" {
+				c.Fail(findingRawEOL, "witness/raw-eol", "w:finding:raw-eol-core", fmt.Sprintf("core.ParseObject(%q): %s (err %v): an unescaped CR / CR LF in a literal string reads as LF (ISO 32000-1 7.3.4.2)", in, d, err), detail)
+			}
+		})
+	}
+	if c.Want("w:finding:raw-eol-cs") {
+		in := "(a\r\nb\rc\nd)Tj"
+		c.Case("witness|"+in, true)
+		detail := map[string]any{"input": in}
+		c.Guard("witness/raw-eol", "w:finding:raw-eol-cs", detail, func() {
+			ops, err := contentstream.NewParser([]byte(in)).Parse()
+			d := "no operation"
+			if err == nil && len(ops) == 1 && len(ops[0].Operands) == 1 {
+				d = diff(str("a\nb\nc\nd"), ops[0].Operands[0], "operand")
+			}
+			if err != nil || d != "" {
+				c.Fail(findingRawEOL, "witness/raw-eol", "w:finding:raw-eol-cs", fmt.Sprintf("contentstream.Parse(%q): %s (err %v): an unescaped CR / CR LF in a literal string reads as LF (ISO 32000-1 7.3.4.2)", in, d, err), detail)
+			}
+		})
+	}
+}
+
 // Run is the C06 check.
 func Run(c *fw.Ctx) {
 	c.Rule("case = (object tree | top-level object sequence | indirect object | stream | operator program) x spelling policy; " +
@@ -669,10 +741,11 @@ func Run(c *fw.Ctx) {
 		"expected value of a real = the Go standard library's correctly rounded reading of its decimal numeral",
 		"a dictionary entry with value null may be reported as absent (§7.3.7), every other difference is a mismatch",
 		"integers stay within int64; reals are plain decimals (no exponent); names never contain NUL",
-		"inline images (BI/ID/EI) are not generated: their payload is raw sample data, not object syntax",
-		"an unescaped CR or CRLF inside a literal string (which §7.3.4.2 reads as LF) is not generated: only LF is written raw")
+		"inline images: the data after ID never contain white space followed by EI, and white space precedes EI; the operands a parser attaches to EI are not compared",
+		"a data LF inside a literal string is written as an unescaped CR / CR LF (which §7.3.4.2 reads as LF) only in a quarter of the cases (trigger of finding "+findingRawEOL+" while it is open)")
 
 	runWitnesses(c)
+	runFindingWitnesses(c)
 
 	n := c.N(15000, 300000) // x 12 policies
 	c.Parallel(n, func(i int) {
